@@ -188,7 +188,13 @@ def twin_case(args):
             ph = None
             for k, it in enumerate(items):
                 single = copy.deepcopy(it)
-                if single.get("uid", "absent") is None and it["op"] in M.PLACEHOLDER_USERS and ph is not None:
+                # an item that names no identifier works on the batch's ID placeholder; sent alone it has to name it.  An
+                # EMPTY identifier counts as none for the operations that test the identifier's text (all but Activate /
+                # Revoke / Destroy / MAC, which look the empty identifier up): engine model `uidOr` vs `uidOrObj`, tied by
+                # the engine correspondence.  (Thorough-tier false alarm of round 12: three batches with an empty identifier.)
+                unnamed = single.get("uid", "absent") is None or \
+                    (single.get("uid") == "" and it["op"] not in ("activate", "revoke", "destroy", "mac"))
+                if unnamed and it["op"] in M.PLACEHOLDER_USERS and ph is not None:
                     single["uid"] = ph
                 one = {"cmd": "req", "now": line["now"], "id": line["id"], "req": dict(line["req"], items=[single], bopt=None)}
                 try:
